@@ -390,8 +390,14 @@ func (p *Program) assumptions(prop string, fns []string) []string {
 		"memory exhaustion, scheduling and wall-clock time are not modelled",
 		"the gc compiler's own translation and optimiser are not examined (the verified text is the go/ssa form of the current tree)",
 	}
-	out = append(out, depDocs(p.usedDeps)...)
-	if p.usedDeps["(*sync.Once).Do"] {
+	used := map[string]bool{}
+	for _, f := range fns {
+		for d := range p.fnDeps[f] {
+			used[d] = true
+		}
+	}
+	out = append(out, depDocs(used)...)
+	if used["(*sync.Once).Do"] {
 		out = append(out, "(*sync.Once).Do: runs f exactly once to completion before any Do returns; every return of Do happens-after that run (Go memory model)")
 	}
 	for c := range p.extConsts {
